@@ -176,6 +176,13 @@ class Ctx:
                 self.drift_kinds[clause] = self.drift_kinds.get(clause, 0) + 1
                 self.validated += 1
                 continue
+            if clause.startswith("note:"):
+                # an observation about the input data (e.g. a recorded frame whose address column disagrees with the
+                # address its own parity yields: a corrupted recording), neither the code's nor the model's business
+                self.extra.setdefault("notes_by_clause", {})
+                self.extra["notes_by_clause"][clause] = self.extra["notes_by_clause"].get(clause, 0) + 1
+                self.validated += 1
+                continue
             if clause.startswith("oracle:") or clause == "unknown_fn":
                 raise tlc.MachineryError("spec self-check failed: %s on event %r" % (clause, e))
             hit = findings.match(pid, e, clause)
